@@ -362,6 +362,8 @@ class Check:
             s = (self.seed * 1000003 + pi * 7919 + (0 if algo == 'tlsf' else 104729)) % (1 << 62)
             rc, out, err = sh([B + '/muh', 'gen', '-algo', algo, '-seed', str(s), '-n', str(n), '-ops', str(ops), '-profile', prof], timeout=3000)
             self.corr_text(out, algo, prof, 'generated algo=%s profile=%s seed=%d' % (algo, prof, s))
+            if self.pid == 'C16' and algo == 'linear':
+                self.spec_compare('%s/%s-%s.trace' % (self.rundir, algo, prof), prof)
 
     # ------------------------------------------------------------------ generic engines (ENGINES.md)
     def engine_component(self, eng, profiles):
@@ -543,6 +545,23 @@ class Check:
         rp = '%s/replays/%s-%s.txt' % (V, self.pid, tag)
         open(rp, 'w').write(text[-6000:])
         return rp
+
+    def spec_compare(self, tp, prof):
+        """C16: the R lines of the real code against the reference semantics LinearSpec.v (extracted;
+        driver in MUH_SPEC=1 mode prints only R lines)"""
+        env = dict(os.environ); env['MUH_SPEC'] = '1'
+        rc, mout, merr = sh([B + '/ocaml/driver', tp], timeout=600, env=env)
+        impl_r = [l for l in open(tp).read().split('\n') if l.startswith('R ')]
+        spec_r = [l for l in mout.split('\n') if l.startswith('R ')]
+        self.cov['spec_r_lines'] = self.cov.get('spec_r_lines', 0) + len(impl_r)
+        if impl_r != spec_r:
+            j = 0
+            while j < len(impl_r) and j < len(spec_r) and impl_r[j] == spec_r[j]:
+                j += 1
+            rp = '%s/replays/C16-spec-%s.trace' % (V, prof)
+            shutil.copy(tp, rp)
+            self.violations.append((rp, 'result %d differs from the reference semantics: impl=%r spec=%r (profile %s)' % (
+                j, impl_r[j] if j < len(impl_r) else '<end>', spec_r[j] if j < len(spec_r) else '<end>', prof), True))
 
     def corpus(self):
         spec = self.spec
